@@ -600,7 +600,43 @@ def r16(ctx):
     C19.r4(ctx)   # the fixture's queue is ordered by (deadline, emission number): a packet parked for long must not block the ones due before it
 
 
+def r17(ctx):
+    R = "C06-R17"
+    ctx.rule(R, "an abort is never read as a clean end-of-file: in tcp::poll_recv and tcp::poll_peek the test of the peer's FIN (which answers "
+                "Ok(0)) is reached only after abort_error(tcb) was found to be None - an abort empties recv_buf but leaves peer_fin set, so "
+                "the other order turns a reset / timed-out connection with unread data into a silent loss")
+    n = 0
+    for fid in ("turmoil_net::kernel::tcp::poll_recv", "turmoil_net::kernel::tcp::poll_peek"):
+        b = ctx.w.bodies.get(fid)
+        if not b:
+            if ctx.strict:
+                ctx.bad(R, f"anchor-missing:{fid}", "", "receive function not found")
+            continue
+        none_edges = []
+        for sbb, m, els, adt, pl in variant_edges(b, lambda p: True):
+            if adt != "std::option::Option":
+                continue
+            at = Slicer(ctx.w).atoms(b, {"c": pl})
+            if "call:turmoil_net::kernel::tcp::abort_error" in at:
+                none_edges.append(m.get("None") or els)
+        fins = []
+        for sbb, te, fe, o in guards_on(b, lambda o: True):
+            at = Slicer(ctx.w).atoms(b, b.term(sbb)["d"])
+            if "field:turmoil_net::kernel::socket::Tcb::peer_fin" in at and "call:turmoil_net::kernel::tcp::abort_error" not in at:
+                fins.append(sbb)
+        if not fins:
+            continue
+        n += 1
+        ok = bool(none_edges) and all(b.dominated_by_any(x, edges=none_edges) for x in fins)
+        ctx.inst(R, f"{fid.rsplit('::', 1)[1]}:abort-before-eof", ok, b.term(fins[0]).get("s", b.span), "end-of-file is reported only on a connection that was not aborted" if ok else
+                 f"`{fid}` tests the peer's FIN before (or without) ruling out an abort: after a RST or a retransmission time-out that found data and the FIN unread, the reader gets "
+                 "Ok(0) - a clean end-of-file in front of bytes that were acknowledged and then dropped")
+    ctx.floor(R, 1)
+
+
 def run(ctx):
+    r17(ctx)
+    C13.r1(ctx)    # an orphan waiting for the peer's FIN (FIN_WAIT2) stays in the table: reaping it early answers that FIN with a RST, which wipes what the peer has not read yet
     r16(ctx)
     C13.r9(ctx)    # a retransmission reaching an orphaned socket is re-ACKed, not reset (the writer must see EOF, not ConnectionReset)
     r15(ctx)
